@@ -716,7 +716,8 @@ func checkC20(c *Ctx, r *Report) {
 				return ok && v == 403
 			}
 			var silent []string
-			for _, e := range exitsFromEntryAvoiding(cl, func(in ssa.Instruction) bool { return in == ssa.Instruction(next) || is403(in) }, nil) {
+			is403Deep := deepMarker(is403, 0) // the answer may be written by a helper (forbid(w, r, reason))
+			for _, e := range exitsFromEntryAvoiding(cl, func(in ssa.Instruction) bool { return in == ssa.Instruction(next) || is403Deep(in) }, nil) {
 				silent = append(silent, c.InstrPos(e))
 			}
 			r.Check(len(silent) == 0, "C20.R6", "Harden: cross-site refusal dominates next.ServeHTTP", c.InstrPos(next), "every exit that bypasses next.ServeHTTP passes http.Error(403); when the handler is reached is decided by the predicate table below", "the middleware can return without calling the next handler and without answering 403: "+strings.Join(silent, ", "))
@@ -911,6 +912,26 @@ func expiredWhenTrueF(cond ssa.Value, field string) (expired bool, known bool) {
 	case *ssa.Call:
 		n := calleeName(x)
 		args := callArgs(x)
+		// a same-package predicate that is nothing but such a comparison (metaExpired(meta))
+		if h := helperBody(x); h != nil && h.Signature.Results().Len() == 1 && isBoolType(h.Signature.Results().At(0).Type()) {
+			var only *ssa.Return
+			nr := 0
+			eachInstr(h, func(in ssa.Instruction) {
+				if ret, ok := in.(*ssa.Return); ok && !isRecoverReturn(ret) {
+					only = ret
+					nr++
+				}
+			})
+			if nr == 1 && len(only.Results) == 1 {
+				if e, k := expiredWhenTrueF(only.Results[0], field); k {
+					if positive {
+						return e, true
+					}
+					return !e, true
+				}
+			}
+			return false, false
+		}
 		if len(args) != 2 {
 			return false, false
 		}
